@@ -705,10 +705,12 @@ def _replace(uniques: list[tuple[set[AST], AST]], var: AST) -> AST:
     return var
 
 
-def replace_simple_assignments_aggregate(lit: AST) -> AST:
+def replace_simple_assignments_aggregate(lit: AST, globals_: Iterable[AST] = ()) -> AST:
     """replace variable equalities with their inlined versions
-    e.g. foo(X), bar(Y), X=Y becomes foo(X), bar(X) inside an aggregate"""
+    e.g. foo(X), bar(Y), X=Y becomes foo(X), bar(X) inside an aggregate
+    a variable that is global in the statement stays: foo(X), X=G becomes foo(G), never foo(X) without the link to G"""
     assert lit.atom.ast_type == ASTType.BodyAggregate
+    global_vars = set(globals_)
     new_elements: list[AST] = []
     for elem in lit.atom.elements:
         eqs = _get_simple_equalities(elem.condition)
@@ -717,7 +719,8 @@ def replace_simple_assignments_aggregate(lit: AST) -> AST:
             graph.add_edge(eq.atom.term, eq.atom.guards[0].term)
         uniques: list[tuple[set[AST], AST]] = []
         for cc in nx.connected_components(graph):
-            uniques.append((cc, sorted(cc)[0]))
+            cc_globals = sorted(v for v in cc if v in global_vars)
+            uniques.append((cc, cc_globals[0] if len(cc_globals) == 1 else sorted(cc)[0]))
         new_condition = [c for c in elem.condition if c not in eqs]
         new_elem = elem.update(condition=new_condition)
         new_elements.append(transform_ast(new_elem, "Variable", partial(_replace, uniques)))
@@ -742,11 +745,14 @@ def replace_simple_assignments(stm: AST) -> AST:
     graph = nx.Graph()
     aux_body: list[AST] = []
     eqs = _get_simple_equalities(new_body)
+    statement_globals = set(global_vars_inside_body(new_body))
+    for head_part in new_heads:
+        statement_globals.update(collect_ast(head_part, "Variable"))
     for lit in new_body:
         if lit in eqs:
             continue
         if lit.ast_type == ASTType.Literal and lit.atom.ast_type == ASTType.BodyAggregate:
-            aux_body.append(replace_simple_assignments_aggregate(lit))
+            aux_body.append(replace_simple_assignments_aggregate(lit, statement_globals))
         else:
             aux_body.append(lit)
 
